@@ -37,7 +37,8 @@ CONSTANTS Legacy,        \* set of deviation names switched on
           Combos,        \* BOOLEAN: also enumerate defect-and-raise-point cases
           Reps,          \* BOOLEAN: one representative class per layer (which class is incidental)
           KindsOn,       \* defect kinds enumerated (all of Kinds, or a focus for the mutant runs)
-          MaxCalls       \* observed API entries per case
+          MaxCalls,      \* observed API entries per case
+          Abstract       \* BOOLEAN: explore one representative per attribute class of cases
 
 -----------------------------------------------------------------------------
 (* The forest, extracted at run time.                                                   *)
@@ -141,15 +142,18 @@ Decorating   == { "decorate", "call" }
 OnDefects    == { d \in DefectVars : d[1] \in KindsOn }
 ControlCases == { Mk(e, NoDefect, "root", "none", 1, "param") : e \in Entries }
                 \cup { Mk(e, NoDefect, "root", "none", 1, "ret") : e \in Decorating }
-DefectCases  == { Mk(e, d, p, "none", 1, "param") : e \in Entries, d \in OnDefects, p \in Positions }
-                \cup { Mk(e, d, p, "none", 1, "ret") : e \in Decorating, d \in OnDefects, p \in { "root", "child" } }
-RaiseCases   == { Mk(e, NoDefect, p, r, n, "param") : e \in Entries, p \in Positions, r \in CheckRPs, n \in { 1, 2 } }
+DefectCases(D, P) ==
+                { Mk(e, d, p, "none", 1, "param") : e \in Entries, d \in D, p \in P }
+                \cup { Mk(e, d, p, "none", 1, "ret") : e \in Decorating, d \in D, p \in P \cap { "root", "child" } }
+RaiseCases(P) == { Mk(e, NoDefect, p, r, n, "param") : e \in Entries, p \in P, r \in CheckRPs, n \in { 1, 2 } }
                 \cup { Mk("call", NoDefect, "root", "callable", 1, "param") }
-ComboCases   == IF Combos
+ComboCases(D, P) ==
+                IF Combos
                 THEN { Mk(e, d, p, r, 1, "param") : e \in { "call", "is_bearable", "die_if_unbearable" },
-                         d \in { x \in OnDefects : x[1] \in ComboKinds }, p \in { "root", "child" }, r \in CheckRPs }
+                         d \in { x \in D : x[1] \in ComboKinds }, p \in P \cap { "root", "child" }, r \in CheckRPs }
                 ELSE {}
-Cases == TLCEval(ControlCases \cup DefectCases \cup RaiseCases \cup ComboCases)
+CasesOver(D, P) == ControlCases \cup DefectCases(D, P) \cup RaiseCases(P) \cup ComboCases(D, P)
+Cases == TLCEval(CasesOver(OnDefects, Positions))
 
 \* what the product above is meant to be (checked, not used for the enumeration)
 Feasible(c) ==
@@ -210,6 +214,17 @@ ObsReturn(o, outc)    == [ o EXCEPT !.out = outc, !.phase = "idle",
                                     !.verdict = Judge(o.phase, o.raised, o.rpith, o.warns, outc) ]
 
 -----------------------------------------------------------------------------
+(* The automaton looks at a case only through these attributes.  With Abstract = TRUE   *)
+(* (quick tier) one representative case per attribute class is explored; with FALSE     *)
+(* every enumerated case is explored separately.  The case table is always complete.    *)
+AbsCase(k) == [ entry |-> k.entry, rp |-> k.rp, nth |-> k.nth, defective |-> k.defect # NoDefect,
+                unhashable |-> Unhashable(k.defect), bottomless |-> Bottomless(k.defect),
+                lazy |-> Lazy(k.defect) ]
+Sig(d)     == << Unhashable(d), Bottomless(d), Lazy(d), d[1] \in ComboKinds >>
+RepDefects == { CHOOSE d \in OnDefects : Sig(d) = g : g \in { Sig(d) : d \in OnDefects } }
+InitCases  == TLCEval(IF Abstract THEN CasesOver(RepDefects, { "root" }) ELSE Cases)
+ASSUME RepsCover == { AbsCase(k) : k \in InitCases } = { AbsCase(k) : k \in Cases }
+
 VARIABLES c,        \* the case (fixed along a behaviour)
           pc,       \* control point
           obs,      \* observable record, see ObsInit
@@ -218,16 +233,21 @@ VARIABLES c,        \* the case (fixed along a behaviour)
           calls     \* observed entries so far (bounds the behaviour)
 vars == << c, pc, obs, flight, reach, calls >>
 
-Init == /\ c \in Cases
+Init == /\ c \in InitCases
         /\ pc = "idle" /\ obs = ObsInit /\ flight = NoExc /\ reach = 0 /\ calls = 0
 
 Defective == c.defect # NoDefect
-Layer(ph) == CASE ph = "decor" -> PublicDesc("BeartypeDecorHintException")
-               [] ph = "call"  -> PublicDesc("BeartypeCallHintException")
-               [] ph = "door"  -> PublicDesc("BeartypeDecorHintException") \cup PublicDesc("BeartypeDoorException")
-               [] OTHER        -> PublicDesc("BeartypeDoorException") \cup PublicDesc("BeartypeDecorHintException")
-\* one representative per layer keeps the state graph small; which class is incidental
-Pick(S) == IF Reps THEN { CHOOSE x \in S : TRUE } ELSE S
+Rep(S)   == IF Reps THEN { CHOOSE x \in S : TRUE } ELSE S
+\* which classes a layer raises (evaluated once); which one of them is incidental
+DecorHintL == TLCEval(Rep(PublicDesc("BeartypeDecorHintException")))
+CallHintL  == TLCEval(Rep(PublicDesc("BeartypeCallHintException")))
+DoorL      == TLCEval(Rep(PublicDesc("BeartypeDoorException")))
+FwdCallL   == TLCEval(Rep(PublicDesc("BeartypeCallHintForwardRefException")))
+FwdDecorL  == TLCEval(Rep(PublicDesc("BeartypeDecorHintForwardRefException")))
+WarnL      == TLCEval(Rep(PublicDesc(WarnTop)))
+Layer(ph)  == CASE ph = "decor" -> DecorHintL
+                [] ph = "call"  -> CallHintL
+                [] OTHER        -> DecorHintL \cup DoorL
 
 Bump      == IF reach < 2 THEN reach + 1 ELSE reach      \* only "reached nth times yet?" matters
 Throw(e)  == flight' = e /\ pc' = "unwind"
@@ -263,14 +283,14 @@ MemoProbe ==        \* hint_conf_exception_prefix_to_func_checker.get(CACHE_KEY)
 Sanify ==
   /\ pc = "sanify" /\ Stay /\ UNCHANGED obs
   /\ \/ pc' = "codegen" /\ UNCHANGED flight
-     \/ Defective /\ \E k \in Pick(Layer(obs.phase)) : Throw(Exc(k))
+     \/ Defective /\ \E k \in Layer(obs.phase) : Throw(Exc(k))
      \/ Defective /\ Unhashable(c.defect) /\ "unguarded_hash" \in Legacy /\ Throw(Exc("py:TypeError"))
      \/ Defective /\ "private_default" \in Legacy /\ Throw(Exc("_BeartypeUtilCallableException"))
 CodeGen ==
   /\ pc = "codegen" /\ UNCHANGED << c, calls >>
   /\ \/ /\ pc' = IF obs.phase = "decor" THEN "return_ok" ELSE "argcheck"
         /\ UNCHANGED << flight, obs, reach >>
-     \/ Defective /\ UNCHANGED << obs, reach >> /\ \E k \in Pick(Layer(obs.phase)) : Throw(Exc(k))
+     \/ Defective /\ UNCHANGED << obs, reach >> /\ \E k \in Layer(obs.phase) : Throw(Exc(k))
      \/ /\ Defective /\ Bottomless(c.defect) /\ UNCHANGED << obs, reach >>
         /\ Throw(IF "unguarded_recursion" \in Legacy THEN Exc("py:RecursionError")
                  ELSE Exc("BeartypeDecorHintRecursionException"))
@@ -282,7 +302,7 @@ CodeGen ==
 
 Warn ==             \* warnings recorded during code generation are played back (checkmake)
   /\ pc = "codegen" /\ obs.nwarn < 2 /\ UNCHANGED << c, pc, flight, reach, calls >>
-  /\ \E w \in Pick(PublicDesc(WarnTop)) : obs' = ObsWarn(obs, w)
+  /\ \E w \in WarnL : obs' = ObsWarn(obs, w)
 
 Unwind ==           \* except Exception as exception: reraise_exception_placeholder(exception, ...)
   /\ pc = "unwind" /\ pc' = "escape" /\ UNCHANGED << c, obs, reach, calls >>
@@ -304,11 +324,8 @@ ArgCheck2 ==
   /\ \/ pc' = (IF obs.phase = "call" THEN "body" ELSE "return_ok") /\ UNCHANGED flight       \* satisfied
      \/ pc' = "report" /\ UNCHANGED flight                                                     \* violated
      \/ /\ Defective /\ Lazy(c.defect) /\ pc' = "escape"                                       \* forward reference
-        /\ \E k \in Pick(IF "decor_class_at_call" \in Legacy
-                          THEN PublicDesc("BeartypeDecorHintForwardRefException")
-                          ELSE IF obs.phase = "call" THEN PublicDesc("BeartypeCallHintForwardRefException")
-                          ELSE PublicDesc("BeartypeCallHintForwardRefException")
-                               \cup PublicDesc("BeartypeDecorHintForwardRefException")) : flight' = Exc(k)
+        /\ \E k \in (IF "decor_class_at_call" \in Legacy THEN FwdDecorL
+                      ELSE IF obs.phase = "call" THEN FwdCallL ELSE FwdCallL \cup FwdDecorL) : flight' = Exc(k)
 Body ==
   /\ pc = "body" /\ UNCHANGED << c, calls >>
   /\ \/ /\ c.rp = "callable" /\ reach' = Bump /\ obs' = ObsUserRaise(obs, 1, TRUE)
@@ -330,7 +347,7 @@ Report ==           \* get_func_pith_violation / get_hint_object_violation re-wa
 Wrap ==             \* TypeHint.__new__ (doormeta): die_unless_hint(exception_cls = Door...), wrapper cache
   /\ pc = "wrap" /\ Stay /\ UNCHANGED << obs >>
   /\ \/ pc' = (IF c.entry = "is_subhint" THEN "compare" ELSE "return_ok") /\ UNCHANGED flight
-     \/ Defective /\ pc' = "escape" /\ \E k \in Pick(PublicDesc("BeartypeDoorException")) : flight' = Exc(k)
+     \/ Defective /\ pc' = "escape" /\ \E k \in DoorL : flight' = Exc(k)
      \/ Defective /\ pc' = "escape" /\ flight' = Exc("BeartypeDecorHintPepException")
      \/ /\ Defective /\ Unhashable(c.defect) /\ "unguarded_hash" \in Legacy
         /\ pc' = "escape" /\ flight' = Exc("py:TypeError")
@@ -378,5 +395,5 @@ TypeOK == /\ obs.out.kind \in { "none", "ok", "exc", "user" } /\ reach \in 0..2 
 NothingSwallowed == (pc \in { "unwind", "escape" }) => flight # NoExc
 
 (* the case table *)
-EmitRows == (Emit /\ pc = "idle" /\ calls = 0) => PrintT(ToJson(CaseRow(c)))
+ASSUME EmitTable == Emit => \A k \in Cases : PrintT(ToJson(CaseRow(k)))
 =============================================================================
